@@ -459,7 +459,7 @@ __CPROVER_assigns(n, QNumbers, g_cur_state)
 __CPROVER_loop_invariant(0 <= n && n <= NOperations)
 __CPROVER_decreases(NOperations - n)
 //@end
-//@harness h_SC_compute enforce=SC_compute props=C07,C17 min_obl=763 reach=5 timeout=180
+//@harness h_SC_compute enforce=SC_compute props=C07,C17 min_obl=806 reach=5 timeout=180
 void h_SC_compute(void)
 {
   struct StatesClassification *p;
